@@ -400,10 +400,10 @@ class Midline(
             contra_kwargs.update(kwargs.get("contra", {}))
             args = self.noext.contra.set_tumor_spread_params(*args, **contra_kwargs)
             mixing_param, args = utils.popfirst(args)
-            mixing_param = (
-                global_kwargs.get("mixing", mixing_param) or self.mixing_param
-            )
-            self.mixing_param = global_kwargs.get("mixing", mixing_param)
+            mixing_param = global_kwargs.get("mixing", mixing_param)
+            if mixing_param is None:
+                mixing_param = self.mixing_param
+            self.mixing_param = mixing_param
 
             ext_contra_kwargs = {}
             for (key, ipsi_param), noext_contra_param in zip(
@@ -489,7 +489,9 @@ class Midline(
         """
         last_param_idx = self.get_num_dims() - 1
         before, last, after = utils.popat(args, idx=last_param_idx)
-        self.midext_prob = kwargs.get("midext_prob", last) or self.midext_prob
+        midext_prob = kwargs.get("midext_prob", last)
+        if midext_prob is not None:
+            self.midext_prob = midext_prob
         args = self.set_spread_params(*(before + after), **kwargs)
         return self.set_distribution_params(*args, **kwargs)
 
